@@ -106,5 +106,6 @@ package parser
 //@   loop 3 invariant rows-so-far: rangeindex2 >= -1 && protoLog != nil && inlog() && undolog.BeforeImage != nil && protolog.BeforeImage != nil && len(protolog.BeforeImage.Rows) == rangeindex2 + 1 && rangeindex2 + 1 < len(undolog.BeforeImage.Rows)
 //@   loop 4 invariant rows-so-far: rangeindex4 >= -1 && protoLog != nil && inlog() && undolog.AfterImage != nil && protolog.AfterImage != nil && len(protolog.AfterImage.Rows) == rangeindex4 + 1 && rangeindex4 < len(undolog.AfterImage.Rows) && samecount(protolog.BeforeImage, undolog.BeforeImage)
 //@   loop 5 invariant rows-so-far: rangeindex4 >= -1 && protoLog != nil && inlog() && undolog.AfterImage != nil && protolog.AfterImage != nil && len(protolog.AfterImage.Rows) == rangeindex4 + 1 && rangeindex4 + 1 < len(undolog.AfterImage.Rows) && samecount(protolog.BeforeImage, undolog.BeforeImage)
+//@   at call convertInterfaceToAny: assert text-is-carried-as-text: (col.ColumnType == types.JDBCTypeChar || col.ColumnType == types.JDBCTypeVarchar || col.ColumnType == types.JDBCTypeLongVarchar) && (isT(col.Value, []byte) || isT(col.Value, sql.RawBytes)) ==> isT(arg_v, string)
 //@   at return: assert every-row-is-written-into-its-own-image: len(result.Logs) == len(intreeLog.Logs) && counted(result.Logs)
 //@   may_panic
